@@ -19,7 +19,7 @@ class C18:
     pid = "C18"
     level = "exploration"
     budget = {"quick": 45, "thorough": 600}
-    ncases = {"quick": 4000, "thorough": 250000}
+    ncases = {"quick": 30000, "thorough": 1000000}
     n_samples = 5
     components_real = ["mpgameserver/http_server.py: HTTPFactory.Channel (dataReceived/raw mode), RequestFactory.process, "
                        "Router.dispatch/getRoute, upgrade_websocket, WebSocketTemporaryHandler, WebSocketTemporaryRingBuffer, "
